@@ -471,6 +471,16 @@ def gen_feeds(ctx):
     # McCain example 15-2 (the one case of the repo's suite)
     jobs.append({'composition': ['methane', 'n-butane', 'n-decane'], 'm': [0.5301 * 16.04e-3, 0.1055 * 58.12e-3, 0.3644 * 142.28e-3],
                  'T': 344.26, 'P': 6894757., 'K0': None, 'tag': 'mccain'})
+    # dense supercritical gas mixtures (single-root states; the two fixed ones were found by the random search)
+    jobs.append({'composition': ['oxygen', 'argon'], 'm': [2.472331004328208e-05, 3.239357385468001e-05], 'T': 326.68242668610895,
+                 'P': 5904622.087575287, 'K0': None, 'tag': 'supercritical'})
+    jobs.append({'composition': ['methane', 'argon'], 'm': [0.354271167501782, 0.00046553454931926475], 'T': 361.65053273854073,
+                 'P': 17509328.78543206, 'K0': None, 'tag': 'supercritical'})
+    gases = ['oxygen', 'argon', 'nitrogen', 'carbon_monoxide', 'methane']
+    for _ in range(ctx.n(20, 600)):
+        names = r.sample(gases, r.randint(2, 4))
+        jobs.append({'composition': names, 'm': scen_mix.feed_masses(r, len(names)), 'T': r.uniform(270., 420.),
+                     'P': scen_mix.log_uniform(r, 2e6, 5e7), 'K0': None, 'tag': 'supercritical'})
     while len(jobs) < n:
         c = scen_mix.flash_case(r, exclude=EXCLUDE)
         c['tag'] = 'random'
@@ -544,7 +554,19 @@ def check_feed(ctx, res, lines, line_owner):
         line_owner.append((res, 'gle'))
     # ---- predicates ------------------------------------------------------------------------------------------------
     feed_nan = not (res['feed_fug_finite'][0] and res['feed_fug_finite'][1])
+    # two known mechanisms behind a failing back-conversion get their own keys (site: dbm.py l.706-710, gas moles from
+    # component idx alone, divided by xi[0,idx] - xi[1,idx])
+    Kk = K[nz]
+    if len(Kk) and np.all(np.isfinite(Kk)) and float(np.max(np.abs(Kk - 1.))) < 1e-6:
+        mech = ('trivial-solution-K=1', 'successive substitution returned the trivial solution K = 1 (identical phases) as a two-phase result; ')
+    elif len(Kk) and np.isfinite(Kk[0]) and abs(float(Kk[0]) - 1.) < 1e-6:
+        mech = ('ng-first-component-K=1', 'the first non-zero component has K = 1 (gas moles are taken from that component alone, l.706-710); ')
+    else:
+        mech = None
     if not np.all(np.isfinite(mm)):
+        if mech is not None:
+            ctx.violation(mech[0], mech[1] + 'equilibrium returned non-finite phase masses', dict(case, masses=mm.tolist(), xi=xi.tolist(), K=K.tolist()))
+            return 'nan'
         if feed_nan:
             ctx.count('flash:skipped(EOS returns NaN fugacity for the feed; C01 matter)')
             return 'eos-nan'
@@ -552,11 +574,11 @@ def check_feed(ctx, res, lines, line_owner):
                       dict(case, masses=mm.tolist(), K=K.tolist()))
         return 'nan'
     if np.any(mm < 0.):
-        ctx.violation('negative-phase-mass', 'a phase mass is negative', dict(case, masses=mm.tolist(), K=K.tolist()))
+        ctx.violation(mech[0] if mech else 'negative-phase-mass', (mech[1] if mech else '') + 'a phase mass is negative', dict(case, masses=mm.tolist(), K=K.tolist()))
     for i in range(n):
         s = abs(mm[0, i]) + abs(mm[1, i]) + abs(m[i])
         if not abs(mm[0, i] + mm[1, i] - m[i]) <= TOL['identity'] * s + 1e-300:
-            ctx.violation('component-mass-not-conserved', 'm_gas,i + m_liq,i differs from the feed mass of component i',
+            ctx.violation(mech[0] if mech else 'component-mass-not-conserved', (mech[1] if mech else '') + 'm_gas,i + m_liq,i differs from the feed mass of component i',
                           dict(case, i=i, masses=mm.tolist(), K=K.tolist(), relative_defect=float((mm[0, i] + mm[1, i] - m[i]) / s)))
             break
     if np.any(mm[:, ~nz] != 0.) or np.any(xi[:, ~nz] != 0.):
